@@ -902,6 +902,20 @@ fn real_find_call(case: &Case) -> (String, Option<PathBuf>) {
 
 /// the property's demand on a conversion: resolve before, convert, resolve the new argument
 /// under the target mode, same location. Returns (file found before, failure).
+/// the location a require argument would be written for: module-folder file name or Lua extension dropped
+fn stripped(loc: &Loc) -> Loc {
+    let mut l = loc.clone();
+    if let Some(last) = l.pop() {
+        let stem = last.split('.').next().unwrap_or("");
+        if stem == "init" || stem == "index" {
+            return l;
+        }
+        let name = last.strip_suffix(".luau").or_else(|| last.strip_suffix(".lua")).unwrap_or(&last);
+        l.push(name.to_owned());
+    }
+    l
+}
+
 fn convert_oracle(case: &Case, target: &Mode, real_arg: &Result<String, String>) -> (Option<PathBuf>, Option<String>) {
     let (_, before) = real_find_call(case);
     let mut oracle = None;
@@ -915,7 +929,11 @@ fn convert_oracle(case: &Case, target: &Mode, real_arg: &Result<String, String>)
                 let want = walk(&cwd(), before_path.to_str().unwrap_or(""));
                 match after {
                     Some(p) if walk(&cwd(), p.to_str().unwrap_or("")) == want => {}
-                    Some(p) => oracle = Some(format!("`{}` resolved to `{}`; converted to `{}` it resolves to `{}`", case.req, before_path.display(), arg, p.display())),
+                    Some(p) => {
+                        // F29's region: another candidate of the same stripped path shadows the file
+                        let shadow = stripped(&walk(&cwd(), p.to_str().unwrap_or(""))) == stripped(&want);
+                        oracle = Some(format!("{}`{}` resolved to `{}`; converted to `{}` it resolves to `{}`", if shadow { "[shadowed] " } else { "" }, case.req, before_path.display(), arg, p.display()))
+                    }
                     None => oracle = Some(format!("`{}` resolved to `{}`; converted to `{}` it gives `{}`", case.req, before_path.display(), arg, after_text)),
                 }
             }
@@ -1382,7 +1400,7 @@ A locator case is non-trivial when at least one candidate file exists (the loop 
         if let Some(what) = &o.oracle {
             let region = if hconv == Some(false) {
                 "F28"
-            } else if !case.ext.is_empty() {
+            } else if what.starts_with("[shadowed]") {
                 "F29"
             } else {
                 ""
@@ -1542,8 +1560,8 @@ fn check_corpus_entry(report: &mut Report, model: &mut Model, v: &Value, known: 
                 report.case(Some(("corpus-conv", input.to_string())));
                 let hconv = m.split(" hconv ").nth(1).and_then(|r| r.split(' ').next()).map(|b| b == "true");
                 let model_arg = m.strip_prefix("arg ").and_then(|r| r.split(' ').next()).and_then(crate::model::unhex).map(|b| String::from_utf8_lossy(&b).into_owned());
-                let ext_explicit = case.req.ends_with(".lua") || case.req.ends_with(".luau") || case.req.ends_with("/");
-                let excused = (hconv == Some(false) && known_entry(known, "F28").is_some()) || (ext_explicit && known_entry(known, "F29").is_some());
+                let shadowed = failure.as_deref().map(|w| w.starts_with("[shadowed]")).unwrap_or(false);
+                let excused = (hconv == Some(false) && known_entry(known, "F28").is_some()) || (shadowed && known_entry(known, "F29").is_some());
                 if let Some(what) = failure.filter(|_| !excused) {
                     report.violation(Violation { kind: s("oracle"), check: s("corpus/convert"), what, input: input.clone(), failing_input_found: true });
                 } else if before.is_some() && arg.as_ref().ok() != model_arg.as_ref() {
